@@ -36,6 +36,19 @@ def run(chk):
         except Exception as e:
             chk.count("fit-rejected:" + type(e).__name__)
             continue
+        if rng.random() < 0.5:
+            # the object has a past: its error curve was asked for, then it was fitted again on other data of the same shape
+            try:
+                nn = np.array(model.basis_matrix_).shape[0]
+                impl.quiet(model.reconstruction_error, rng.integers(-16, 17, size=(2, nn)) / 4.0)
+                impl.quiet(model.score, rng.integers(-16, 17, size=(2, nn)) / 4.0)
+                X = (np.asarray(X, dtype=float) + rng.integers(-8, 9, size=np.shape(X)) / 4.0)
+                impl.quiet(model.fit, X, quiet=True, seed=int(rng.integers(0, 100)))
+                cfg = {**cfg, "X": X.tolist(), "history": "reconstruction_error + score on the first fit, then refitted on X"}
+                chk.count("refitted_after_use")
+            except Exception as e:
+                chk.count("refit-rejected:" + type(e).__name__)
+                continue
         B = np.array(model.basis_matrix_)
         n, m = B.shape
         p = int(rng.integers(1, n + 1))
